@@ -122,6 +122,47 @@ func classify(err error) string {
 	return "err:" + err.Error()
 }
 
+func coqBytes(b []byte) string {
+	var sb strings.Builder
+	sb.WriteString("[")
+	for i, x := range b {
+		if i > 0 {
+			sb.WriteString(";")
+		}
+		sb.WriteString(strconv.Itoa(int(x)))
+	}
+	sb.WriteString("]")
+	return sb.String()
+}
+
+// coqCid: the prefix is abstracted to version*1000 + codec
+func coqCid(c cid.Cid) string {
+	return fmt.Sprintf("{| c_pfx := %d; c_mh := %s |}", c.Version()*1000000+c.Type(), coqBytes(c.Hash()))
+}
+
+func coqOut(r rec, c cid.Cid) string {
+	switch {
+	case r.Res == "ctx":
+		return "BCtx"
+	case r.Res == "notfound":
+		return "BNotFound"
+	case r.Res == "wronghash":
+		return "BWrongHash"
+	case strings.HasPrefix(r.Res, "err"):
+		return "BErr"
+	}
+	switch r.Op {
+	case "get":
+		d, _ := hex.DecodeString(r.Data)
+		return fmt.Sprintf("BBlock %s %s", coqCid(c), coqBytes(d))
+	case "has":
+		return fmt.Sprintf("BBool %v", *r.Bool)
+	case "size":
+		return fmt.Sprintf("BSize %d", *r.Size)
+	}
+	return "BOk"
+}
+
 func main() {
 	in, err := os.Open(os.Args[1])
 	if err != nil {
@@ -133,6 +174,7 @@ func main() {
 	sc := bufio.NewScanner(in)
 	sc.Buffer(make([]byte, 1<<20), 1<<24)
 	seq := 0
+	var coqTerms []string
 	cctx, cancel := context.WithCancel(context.Background())
 	cancel()
 	for sc.Scan() {
@@ -145,6 +187,15 @@ func main() {
 			store.IndexBitSize(12), store.GCInterval(time.Hour), store.SyncInterval(time.Hour))
 		if err != nil {
 			panic(err)
+		}
+		modelled := !strings.Contains(line, "flush")
+		var cterms []string
+		table := map[string]string{}
+		noteCid := func(c cid.Cid, b int) {
+			if b%4 == 3 {
+				modelled = false // two-byte multihash code: outside the model's one-byte varints
+			}
+			table[coqCid(c)] = coqBytes(blockData(b))
 		}
 		for i, p := range strings.Split(line, ";") {
 			f := strings.Fields(p)
@@ -229,10 +280,54 @@ func main() {
 				r.Res = "ok"
 			}
 			enc.Encode(r)
+			cb := "false"
+			if canc {
+				cb = "true"
+			}
+			switch f[0] {
+			case "put":
+				c, b := variant(f[1])
+				noteCid(c, b)
+				cterms = append(cterms, fmt.Sprintf("(BPut %s %s %s, %s)", cb, coqCid(c), coqBytes(blockData(b)), coqOut(r, c)))
+			case "putbad":
+				c, b := variant(f[1])
+				d, _ := strconv.Atoi(f[2])
+				noteCid(c, b)
+				if d%4 == 3 {
+					modelled = modelled && true
+				}
+				cterms = append(cterms, fmt.Sprintf("(BPut %s %s %s, %s)", cb, coqCid(c), coqBytes(blockData(d)), coqOut(r, c)))
+			case "putmany":
+				var items []string
+				for _, x := range strings.Split(f[1], ",") {
+					c, b := variant(x)
+					noteCid(c, b)
+					items = append(items, fmt.Sprintf("(%s, %s)", coqCid(c), coqBytes(blockData(b))))
+				}
+				cterms = append(cterms, fmt.Sprintf("(BPutMany %s [%s], %s)", cb, strings.Join(items, "; "), coqOut(r, cid.Undef)))
+			case "get", "has", "size", "del":
+				c, b := variant(f[1])
+				noteCid(c, b)
+				ctor := map[string]string{"get": "BGet", "has": "BHas", "size": "BGetSize", "del": "BDelete"}[f[0]]
+				cterms = append(cterms, fmt.Sprintf("(%s %s %s, %s)", ctor, cb, coqCid(c), coqOut(r, c)))
+			case "hor":
+				cterms = append(cterms, fmt.Sprintf("(BHashOnRead %v, BOk)", f[1] == "1"))
+			}
+		}
+		if modelled && len(os.Args) > 3 {
+			var tb []string
+			for c, d := range table {
+				tb = append(tb, fmt.Sprintf("(%s, %s)", c, d))
+			}
+			coqTerms = append(coqTerms, fmt.Sprintf("(*SEQ %d*)\n  ([%s],\n   [%s])", seq, strings.Join(tb, "; "), strings.Join(cterms, ";\n    ")))
+		} else {
+			coqTerms = append(coqTerms, fmt.Sprintf("(*SEQ %d*)\n", seq))
 		}
 		bs.Close()
 		os.RemoveAll(dir)
 		seq++
 	}
-	_ = fmt.Sprint
+	if len(os.Args) > 3 {
+		os.WriteFile(os.Args[3], []byte(strings.Join(coqTerms, "\n")+"\n"), 0o644)
+	}
 }
